@@ -18,3 +18,26 @@ def partitionBlocks (p : PDict) (d c : Nat) : List PDict :=
 def partitionIdx (nb d : Nat) : List (Nat × Nat × Nat × Nat) :=
   (List.range nb).flatMap (fun i => (List.range nb).flatMap (fun j =>
     (List.range d).flatMap (fun k => (List.range k).map (fun l => (i, j, k, l)))))
+
+/-- what `add_partition_constraints` keeps of `list_of_constraints` before it generates again: every constraint
+that the previous call did not generate (removal by identity, wherever the constraint sits in the list) -/
+def partKeep (cons ortho : List Nat) : List Nat := cons.filter (fun c => !ortho.contains c)
+
+/-- the two lists of a `BlockPartition` that change over a history of solves: `list_of_constraints` and the
+record of what the latest call generated -/
+structure PartLists where
+  cons : List Nat := []
+  ortho : List Nat := []
+  deriving Repr, DecidableEq
+
+/-- what happens to a partition between and at solves -/
+inductive PartOp where
+  | addUser (c : Nat)            -- `partition.add_constraint(c)`
+  | solve (gen : List Nat)       -- `add_partition_constraints()` generating the constraints `gen`
+  deriving Repr
+
+def PartLists.step (s : PartLists) : PartOp → PartLists
+  | .addUser c => { s with cons := s.cons ++ [c] }
+  | .solve gen => { cons := partKeep s.cons s.ortho ++ gen, ortho := gen }
+
+def PartLists.run (s : PartLists) (ops : List PartOp) : PartLists := ops.foldl PartLists.step s
